@@ -59,9 +59,11 @@ Theorem C04_move_leaves_previous_owner_parent_attr : forall w known c p, reachab
     getn w' c = with_par (getn w c) p.
 Proof. intros w known c p R. exact (op_setparent_effect w known c p (invall_reachable w known R)). Qed.
 
-(* the module list: ir.modules.insert(i, v) / append(v) of a module owned elsewhere (or by this very IR) *)
+(* the module list: ir.modules.insert(i, v) of a module owned by another IR or by none (for a module of this very IR see
+   C04_modlist_insert_own_module below and C16_modlist_insert / C16_modlist_insert_member_moves: insert is the slice
+   assignment modules[i:i] = [v], which moves a member inside the list) ... *)
 Theorem C04_move_leaves_previous_owner_modlist_insert : forall w known ir i v, reachable_k w known ->
-  op_okb w known (OModInsert ir i v) = true ->
+  op_okb w known (OModInsert ir i v) = true -> par w v <> Some ir ->
   let l := remove_id v (kids w ir) in
   exists w', step w (OModInsert ir i v) = Ok w' /\
     kids w' ir = insert_at (clamp_insert i (length l)) v l /\
@@ -69,9 +71,31 @@ Theorem C04_move_leaves_previous_owner_modlist_insert : forall w known ir i v, r
     (forall x, nodes w' x = if x =? v then Some (with_par (getn w v) (Some ir)) else nodes w x) /\
     par w' v = Some ir.
 Proof.
-  intros w known ir i v R. exact (ModListProofs.insert_effect w known ir i v (reach_forest w known R) (reach_cache w known R)).
+  intros w known ir i v R G Hp l. pose proof (reach_forest w known R) as F.
+  assert (Hn : ~ In v (kids w ir)) by (intro H; apply (f_two_ended w known F) in H; contradiction).
+  assert (El : l = kids w ir) by (apply ModListBase.remove_id_notin; exact Hn).
+  destruct (ModListProofs.insert_effect w known ir i v F (reach_cache w known R) G) as (w' & Hs & Hk & H).
+  exists w'. split; [exact Hs|]. split; [|exact H].
+  rewrite Hk, El. apply ModListProofs.insert_list_fresh. exact Hn.
 Qed.
 
+(* ... and of a module this IR owns already: it stays owned by this IR, once; no other list and no node changes *)
+Theorem C04_modlist_insert_own_module : forall w known ir i v, reachable_k w known ->
+  op_okb w known (OModInsert ir i v) = true -> par w v = Some ir ->
+  exists w', step w (OModInsert ir i v) = Ok w' /\
+    par w' v = Some ir /\ NoDup (kids w' ir) /\ (forall x, In x (kids w' ir) <-> In x (kids w ir)) /\
+    (forall x, x <> ir -> kids w' x = kids w x) /\
+    (forall x, nodes w' x = nodes w x).
+Proof.
+  intros w known ir i v R G Hp. pose proof (reach_forest w known R) as F.
+  assert (Hv : In v (kids w ir)) by (apply (f_two_ended w known F); exact Hp).
+  destruct (ModListProofs.insert_effect_member w known ir i v F (reach_cache w known R) G Hv)
+    as (w' & Hs & _ & Hnd & Hin & _ & _ & Ho & Hn).
+  exists w'. split; [exact Hs|]. split; [|split; [exact Hnd|split; [exact Hin|split; [exact Ho|exact Hn]]]].
+  unfold par, getn. rewrite Hn. exact Hp.
+Qed.
+
+(* append(v) of a module owned elsewhere or by this very IR (then it is moved to the end) *)
 Theorem C04_move_leaves_previous_owner_modlist_append : forall w known ir v, reachable_k w known ->
   op_okb w known (OModAppend ir v) = true ->
   exists w', step w (OModAppend ir v) = Ok w' /\
@@ -228,6 +252,7 @@ Print Assumptions C04_every_step.
 Print Assumptions C04_move_leaves_previous_owner.
 Print Assumptions C04_move_leaves_previous_owner_parent_attr.
 Print Assumptions C04_move_leaves_previous_owner_modlist_insert.
+Print Assumptions C04_modlist_insert_own_module.
 Print Assumptions C04_move_leaves_previous_owner_modlist_append.
 Print Assumptions C04_accessors.
 Print Assumptions C04_accessors_kinds.
